@@ -1,4 +1,7 @@
 import HexVerif.Lemmas.XcmpFuel
+import HexVerif.Lemmas.XcmpNoLocalArr
+import HexVerif.Lemmas.XcmpV1
+import HexVerif.Xcmp.Compile
 /-!
   Property C09: xcmp accepts or cleanly rejects every input - the stages modelled so far.
 
@@ -18,7 +21,19 @@ import HexVerif.Lemmas.XcmpFuel
   * `C09_partial`: hence the front end either delivers a program or a diagnostic (and then nothing
     else: the diagnostic arm carries no tree) - for every byte string, with no third outcome.
 
-  NOT proved (so the level claimed is partial): everything after the
+  * `C09_no_local_array`: no program the parser delivers declares a local array - the one tree shape
+    for which the compile-stage model has no C++ behaviour to follow (`CDiag.unsupported`).
+  * `C09_pipeline_partial`: the WHOLE compiler model from source bytes (`runSrc` = front end, then
+    `Xcmp.compileFile`: symbols, constant propagation, rewriting, code generation, lowering, peephole,
+    in-process assembly, file image) ends in an image, a located front-end diagnostic or a semantic
+    diagnostic of a named exception class - or in the explicitly named residual `Residual P` (the
+    directive list handed to the assembler fails the decidable check `dirsOkB`: an immediate outside
+    32 bits or 2^26 directives; or a compile stage raises `unsupported` although the program has no
+    local array).  The residual is evaluated on every program of the C01/C08/C09 correspondence runs
+    (field `R=` of the compiler-model driver) and has never been met; that it is empty is not proved.
+    Under `dirsOkB` label resolution terminates (`Asm.assemble_terminates`, the C05/C10 theorem).
+
+  NOT proved (so the level claimed is partial): the partial operations of the C++ after the
   parser - symbol table, constant propagation, code generation, lowering, peephole, assembly - where
   the remaining partial operations of the C++ live (`optional::value`, null after `dynamic_cast`,
   label-map lookups, shifts, signed arithmetic).  Those stages are exercised by the sanitizer-
@@ -70,5 +85,127 @@ example : outcome "proc main() is x := " = .inl (.diag ⟨.parserToken, ⟨0, 22
 example : outcome "proc main() is 0('ab')" = .inl (.diag ⟨.token, ⟨0, 20⟩⟩) := by decide +kernel
 example : outcome "proc main() is skip x y" = .inl (.diag ⟨.unexpectedToken, ⟨0, 24⟩⟩) := by decide +kernel
 example : (lexAll [112, 255, 113]).length = 4 := by decide +kernel
+
+/-! ### The whole compiler model from source bytes -/
+
+/-- Outcome of the compiler model on a source text. -/
+inductive Outcome where
+  | image (bytes : List Byte)          -- the file xcmp writes
+  | frontDiag (d : Diag)               -- lexical / syntactic diagnostic with its location
+  | compileDiag (d : CDiag)            -- semantic diagnostic: a named exception class
+  | anomaly (what : String)            -- an outcome the C++ has no counterpart for
+
+/-- The side condition under which the assembler model follows hexasm on xcmp's directive list. -/
+def dirsOkB (ds : List Asm.Dir) : Bool := C01s.parsedOkB ds && decide (ds.length < 2 ^ 26)
+
+def CDiag.named : CDiag → Bool
+  | .asmFuel | .unsupported _ => false
+  | _ => true
+
+def runSrc (src : List Byte) : Outcome :=
+  match parse src with
+  | .error (.diag d) => .frontDiag d
+  | .error .fuel => .anomaly "parser fuel"
+  | .error (.fault w) => .anomaly w
+  | .ok P =>
+    match stages P with
+    | .error e => if CDiag.named e then .compileDiag e else .anomaly "compile stage"
+    | .ok st =>
+      if dirsOkB st.optimised then
+        match assembleDirs st.optimised with
+        | .ok img => .image (Asm.fileBytes img)
+        | .error e => if CDiag.named e then .compileDiag e else .anomaly "assembler"
+      else .anomaly "directive list outside the assembler model"
+
+/-- What is not excluded by proof: see the header. -/
+def Residual (P : X.Program) : Prop :=
+  (∃ e, stages P = .error e ∧ CDiag.named e = false) ∨ (∃ st, stages P = .ok st ∧ dirsOkB st.optimised = false)
+
+/-- No program the parser delivers declares a local array. -/
+theorem C09_no_local_array (src : List Byte) (P : X.Program) (h : parse src = .ok P) : NoLocalArr P :=
+  parse_noLocalArr src _ P h
+
+theorem withLoc_map (ds : List Asm.Dir) : (withLoc ds).map (·.1) = ds := by
+  unfold withLoc
+  induction ds with
+  | nil => rfl
+  | cons d t ih => rw [List.map_cons, List.map_cons, ih]
+
+/-- Under `dirsOkB` the in-process assembly never runs out of iterations. -/
+theorem assembleDirs_no_fuel (ds : List Asm.Dir) (h : dirsOkB ds = true) : assembleDirs ds ≠ .error .asmFuel := by
+  unfold dirsOkB at h
+  rw [Bool.and_eq_true] at h
+  have hp : Asm.ParsedOk ((withLoc ds).map (·.1)) := by rw [withLoc_map]; exact C01s.parsedOkB_sound ds h.1
+  have hn : (withLoc ds).length < 2 ^ 26 := by unfold withLoc; rw [List.length_map]; exact of_decide_eq_true h.2
+  have ht := Asm.assemble_terminates (withLoc ds) hp hn
+  unfold assembleDirs
+  intro hc
+  split at hc
+  · cases hc
+  · rename_i hnone; exact ht hnone
+  · cases hc
+
+/-- **The whole compiler model, from source bytes**: image, located diagnostic, named semantic
+    diagnostic - or the residual of the header. -/
+theorem C09_pipeline_partial (src : List Byte) :
+    (∃ b, runSrc src = .image b) ∨ (∃ d, runSrc src = .frontDiag d) ∨
+    (∃ d, runSrc src = .compileDiag d ∧ CDiag.named d = true) ∨
+    (∃ P, parse src = .ok P ∧ NoLocalArr P ∧ Residual P) := by
+  cases hp : parse src with
+  | error e =>
+    cases e with
+    | diag d => exact Or.inr (Or.inl ⟨d, by simp only [runSrc, hp]⟩)
+    | fuel => exact absurd hp (C09_no_fuel src)
+    | fault w => exact absurd hp (C09_no_fault src _ w)
+  | ok P =>
+    have hna := C09_no_local_array src P hp
+    cases hs : stages P with
+    | error e =>
+      by_cases hn : CDiag.named e = true
+      · exact Or.inr (Or.inr (Or.inl ⟨e, by simp only [runSrc, hp, hs, hn, if_true], hn⟩))
+      · exact Or.inr (Or.inr (Or.inr ⟨P, rfl, hna, Or.inl ⟨e, hs, by simpa using hn⟩⟩))
+    | ok st =>
+      by_cases hd : dirsOkB st.optimised = true
+      · cases ha : assembleDirs st.optimised with
+        | ok img => exact Or.inl ⟨Asm.fileBytes img, by simp only [runSrc, hp, hs, hd, ha, if_true]⟩
+        | error e =>
+          by_cases hn : CDiag.named e = true
+          · exact Or.inr (Or.inr (Or.inl ⟨e, by simp only [runSrc, hp, hs, hd, ha, hn, if_true], hn⟩))
+          · exfalso
+            cases e with
+            | asmFuel => exact assembleDirs_no_fuel _ hd ha
+            | unsupported w => unfold assembleDirs at ha; split at ha <;> cases ha
+            | unknownSymbol n => exact hn rfl
+            | redeclaredSymbol n => exact hn rfl
+            | nonConstArrayLength n => exact hn rfl
+            | nonConstVal n => exact hn rfl
+            | invalidSyscall n => exact hn rfl
+            | asm d => exact hn rfl
+      · exact Or.inr (Or.inr (Or.inr ⟨P, rfl, hna, Or.inr ⟨st, hs, by simpa using hd⟩⟩))
+
+/-- In the other direction the four outcomes are exclusive and the model says which one: an
+    `anomaly` is reported only inside the residual (or never, for the front end). -/
+theorem C09_anomaly_is_residual (src : List Byte) (w : String) (h : runSrc src = .anomaly w) :
+    ∃ P, parse src = .ok P ∧ Residual P := by
+  rcases C09_pipeline_partial src with ⟨b, hb⟩ | ⟨d, hd⟩ | ⟨d, hd, _⟩ | ⟨P, hP, _, hR⟩
+  · rw [hb] at h; cases h
+  · rw [hd] at h; cases h
+  · rw [hd] at h; cases h
+  · exact ⟨P, hP, hR⟩
+
+/-! Non-vacuity of the pipeline statement: the three proper outcomes occur. -/
+def outcomeTag (src : String) : Nat :=
+  match runSrc (bytesOf src) with
+  | .image _ => 0
+  | .frontDiag _ => 1
+  | .compileDiag (.unknownSymbol _) => 2
+  | .compileDiag (.nonConstArrayLength _) => 3
+  | .compileDiag _ => 4
+  | .anomaly _ => 5
+
+example : outcomeTag "proc main() is 0(1+2)" = 0 := by decide +kernel
+example : outcomeTag "proc main() is x := " = 1 := by decide +kernel
+example : outcomeTag "proc main() is x := 1" = 2 := by decide +kernel
+example : outcomeTag "var n; array a[n]; proc main() is skip" = 3 := by decide +kernel
 
 end Hex.Xcmp
